@@ -59,8 +59,17 @@ CallJson(r, c, m) ==
                 perindex |-> SigSpec[c.op].msg \in PerIndexMsg,
                 verkeys |-> [i \in 1..Len(c.kinds) |-> VerKey(c.kinds[i])]]
 
-SInit == /\ Init /\ hist = <<[ev |-> "Reset", fork |-> fork]>> /\ kind = "pick"
+\* the instance is up (what the real New() does with the start-up input is recorded by the driver: if it
+\* refuses to start, the requests of the history are not made); the Reset step carries the start-up input and
+\* the specifications' table of domain types (the driver holds no table of its own)
+SInit == /\ fork \in ForkEpochs /\ boot \in Boots /\ svc = "up" /\ InitRequests
+         /\ hist = <<[ev |-> "Reset", fork |-> fork, boot |-> boot, table |-> DomainTypeBytes]>> /\ kind = "pick"
          /\ gate = [r \in Rids |-> "none"]
+
+\* start-up inputs of the simulated start-up histories (Scen_SignerHist_boot.cfg: Boots <- BootsSim): every
+\* assignment of the three modes to the later keys, every single key broken, the failed lookup, on both chains
+BootsSim ==
+    UNION {BootsOver(LaterKeys, KeyModes, n) \cup BootsOneBroken(SpecKeys, n) \cup {SpecErrBoot(n)} : n \in {8, 32}}
 
 Runnable(r) == \/ pc[r] \in {"called", "sign", "failed"}
                \/ pc[r] = "waiting" /\ ~DGate(gate[r])
@@ -87,7 +96,9 @@ NextSignerCall(r) ==
 
 \* the sequential code of request r up to the next point where the schedule holds it, or its return
 Internal(r) ==
-    CASE pc[r] = "called" -> FetchDomain(r)
+    CASE pc[r] = "called" -> IF CanServe(req[r].op) /\ req[r].fail # "input"
+                             THEN FetchDomain(r)
+                             ELSE Refuse(r)            \* (the pinned code: nothing held for the key - no default)
       [] pc[r] = "waiting" -> DomainResp(r)         \* not held at the provider: the reply comes at once
       [] pc[r] = "insign" -> SignEnd(r)             \* not held at the signer
       [] pc[r] = "failed" -> ReturnErr(r)
